@@ -198,6 +198,10 @@ def receiveNet (g : Guards) (D : Decoders) (st : State) (nackReason : Option Nat
       guarded g.caughtData st (D.data pkt) fun d => .ok (onData st d)
     else .ok (st, [])
 
+/-- the Nack reason `_receive` acts on: a Nack header without a NackReason element is a Nack with
+    reason None = 0 (NDNLPv2; `parse_lp_packet` / `appv2._receive` default it), no Nack header = not a Nack -/
+def nackReasonOf (n : Option (Option Nat)) : Option Nat := n.map (·.getD 0)
+
 /-- `_receive(typ, data)`; `.error e` = exception class `e` leaves the coroutine -/
 def receive (g : Guards) (D : Decoders) (st : State) (typ : Nat) (wire : Bytes) : Except PyErr Res :=
   if typ = g.lpType then
@@ -208,7 +212,7 @@ def receive (g : Guards) (D : Decoders) (st : State) (typ : Nat) (wire : Bytes) 
         else guarded g.caughtFragTl st (.error .typeError : Except PyErr Nat) fun _ => .ok (st, [])
       | some frag =>
         guarded g.caughtFragTl st (D.tl frag) fun t =>
-          receiveNet g D st lp.nack.join lp.pitToken t frag
+          receiveNet g D st (nackReasonOf lp.nack) lp.pitToken t frag
   else receiveNet g D st none none typ wire
 
 /-- `UdpFace … datagram_received(data, addr)`: the `(typ, data)` handed to the callback, `none` when the
